@@ -127,6 +127,10 @@ def run(tier):
                     wantrow[k] = 2 * shear[k - 3]
                     check(nm + " shear row %d" % k, row, wantrow, "2 G (Mandel)")
     rep.floor("shims interpreted (-O2)", 40)
+    # axes conventions: the PIPE variants of the orthotropic builders (unaltered and altered) are the restriction of the
+    # 3D tensor of the permuted material (shared with C28)
+    import C28
+    C28.conventions(rep, tier)
     rep.assumptions += ["exact rational arithmetic in the moduli; admissibility (positive definiteness) is not decided",
                         "engineering compliance convention S_ij = -nu_ij/E_i with nu12, nu23, nu13 as passed"]
     return rep
